@@ -401,7 +401,7 @@ def run(ctx):
     for c in corpus.load("C06"):
         ctx.count("corpus")
         run_case(ctx, c, drv)
-    nlib, nops = (60, 15) if quick else (800, 40)
+    nlib, nops = (60, 15) if quick else (1600, 40)
     for i in range(nlib):
         if ctx.time_left() < 0:
             ctx.notes.append("stopped by time budget after %d histories" % i)
